@@ -23,15 +23,19 @@ pub struct Profile {
     pub w_assert: u64,
     pub w_flow: u64,
     pub w_drop_auth: u64,
+    pub w_lock_scenario: u64,
+    /// recall from / burn inside observed accounts allowed?
+    pub direct_vault_ops: bool,
+    pub faucet_free_pct: u64,
     /// chance (percent) of a tidy ending (everything returned / deposited)
     pub tidy_pct: u64,
     pub max_len: usize,
 }
 
-pub const P_C09: Profile = Profile { name: "c09", v2_pct: 50, bad_id_pct: 3, hostile_amount_pct: 25, w_proof: 2, w_assert: 6, w_flow: 10, w_drop_auth: 1, tidy_pct: 80, max_len: 22 };
-pub const P_C10: Profile = Profile { name: "c10", v2_pct: 30, bad_id_pct: 1, hostile_amount_pct: 45, w_proof: 12, w_assert: 1, w_flow: 8, w_drop_auth: 1, tidy_pct: 90, max_len: 24 };
-pub const P_C36: Profile = Profile { name: "c36", v2_pct: 50, bad_id_pct: 8, hostile_amount_pct: 15, w_proof: 6, w_assert: 2, w_flow: 10, w_drop_auth: 2, tidy_pct: 85, max_len: 20 };
-pub const P_C38: Profile = Profile { name: "c38", v2_pct: 70, bad_id_pct: 0, hostile_amount_pct: 6, w_proof: 1, w_assert: 6, w_flow: 12, w_drop_auth: 0, tidy_pct: 97, max_len: 18 };
+pub const P_C09: Profile = Profile { name: "c09", direct_vault_ops: true, faucet_free_pct: 3, v2_pct: 50, bad_id_pct: 3, hostile_amount_pct: 25, w_proof: 2, w_assert: 6, w_flow: 10, w_drop_auth: 1, w_lock_scenario: 1, tidy_pct: 80, max_len: 22 };
+pub const P_C10: Profile = Profile { name: "c10", direct_vault_ops: true, faucet_free_pct: 3, v2_pct: 30, bad_id_pct: 1, hostile_amount_pct: 30, w_proof: 6, w_assert: 1, w_flow: 8, w_drop_auth: 1, w_lock_scenario: 8, tidy_pct: 90, max_len: 24 };
+pub const P_C36: Profile = Profile { name: "c36", direct_vault_ops: true, faucet_free_pct: 3, v2_pct: 50, bad_id_pct: 8, hostile_amount_pct: 15, w_proof: 6, w_assert: 2, w_flow: 10, w_drop_auth: 2, w_lock_scenario: 2, tidy_pct: 85, max_len: 20 };
+pub const P_C38: Profile = Profile { name: "c38", direct_vault_ops: false, faucet_free_pct: 12, v2_pct: 70, bad_id_pct: 0, hostile_amount_pct: 6, w_proof: 1, w_assert: 6, w_flow: 12, w_drop_auth: 0, w_lock_scenario: 0, tidy_pct: 97, max_len: 18 };
 
 pub struct Case {
     pub ins: Vec<Ins>,
@@ -136,7 +140,19 @@ fn pick_ids(rng: &mut Rng, p: &Profile, all: &BTreeSet<u64>, locked: &BTreeSet<u
     f
 }
 
-fn cons_for(rng: &mut Rng, info: &ResInfo, h: Option<&Holding>) -> Cons {
+/// A constraint for a balance; `violate` steers towards one the balance does not satisfy.
+fn cons_for(rng: &mut Rng, info: &ResInfo, h: Option<&Holding>, violate: bool) -> Cons {
+    let mut c = cons_any(rng, info, h);
+    for _ in 0..8 {
+        if eval_cons(&c, h) != violate {
+            break;
+        }
+        c = cons_any(rng, info, h);
+    }
+    c
+}
+
+fn cons_any(rng: &mut Rng, info: &ResInfo, h: Option<&Holding>) -> Cons {
     let u = info.unit();
     let amount = h.map(|h| h.amount()).unwrap_or_else(BigInt::zero);
     let below = (&amount - &u).max(BigInt::zero());
@@ -181,12 +197,13 @@ fn cons_for(rng: &mut Rng, info: &ResInfo, h: Option<&Holding>) -> Cons {
 
 struct Gen<'a> {
     rng: &'a mut Rng,
-    p: &'a Profile,
+    p: Profile,
     m: Model,
     v2: bool,
     out: Vec<Ins>,
     stopped: bool,
     n_acct: usize,
+    violate_pct: u64,
 }
 
 impl<'a> Gen<'a> {
@@ -203,6 +220,16 @@ impl<'a> Gen<'a> {
 
     fn acct(&mut self) -> usize {
         self.rng.usize_below(self.n_acct)
+    }
+    fn bucket_burnable(&self, b: u32) -> bool {
+        self.m.buckets.get(&b).map(|c| self.m.res[self.m.containers[*c].res].burnable).unwrap_or(true)
+    }
+    fn wild(&mut self) -> bool {
+        self.rng.below(100) < self.p.hostile_amount_pct
+    }
+    /// should the next assertion be one that does not hold?
+    fn violate(&mut self) -> bool {
+        self.rng.below(100) < self.violate_pct
     }
     fn res(&mut self) -> usize {
         self.rng.usize_below(self.m.res.len())
@@ -261,31 +288,35 @@ impl<'a> Gen<'a> {
 
     fn op_source(&mut self) {
         // bring resources in: withdraw / recall, sometimes with a next-call assertion in front
+        if !self.m.faucet_free_used && self.rng.below(100) < self.p.faucet_free_pct {
+            return self.push(Ins::FaucetFree);
+        }
         let (a, r) = (self.acct(), self.res());
         let v = self.m.vaults[&(a, r)];
         let info = self.m.res[r].clone();
         let (total, free, ids, locked) = self.container_amounts(v);
         let by_ids = !info.fungible && self.rng.chance(4, 5);
         let ins = if by_ids {
-            let pick = pick_ids(self.rng, self.p, &ids, &locked);
-            if self.rng.chance(1, 6) {
+            let pick = pick_ids(self.rng, &self.p, &ids, &locked);
+            if self.p.direct_vault_ops && info.recallable && self.rng.chance(1, 6) {
                 Ins::RecallNf { acct: a, res: r, ids: pick }
             } else {
                 Ins::WithdrawNf { acct: a, res: r, ids: pick }
             }
         } else {
-            let mut amt = pick_amount(self.rng, self.p, &info, &total, &free);
+            let mut amt = pick_amount(self.rng, &self.p, &info, &total, &free);
             if !info.fungible {
                 // amount-based non-fungible withdrawal: keep to the deterministic cases mostly
+                let wild = self.wild();
                 amt = match self.rng.below(8) {
-                    0 => to_dec(&free),
+                    0 | 4 | 5 => to_dec(&free),
                     1 => Decimal::ZERO,
-                    2 => to_dec(&(&free + one())),
-                    3 => to_dec(&(one() / 2u32)),
+                    2 if wild => to_dec(&(&free + one())),
+                    3 if wild => to_dec(&(one() / 2u32)),
                     _ => amt,
                 };
             }
-            if self.rng.chance(1, 6) && info.fungible {
+            if self.p.direct_vault_ops && info.recallable && self.rng.chance(1, 6) && info.fungible {
                 Ins::Recall { acct: a, res: r, amount: amt }
             } else {
                 Ins::Withdraw { acct: a, res: r, amount: amt }
@@ -307,11 +338,11 @@ impl<'a> Gen<'a> {
             } else {
                 None
             };
-            let mut cons = vec![(r, cons_for(self.rng, &info, returned.as_ref()))];
+            let mut cons = vec![(r, { let v = self.violate(); cons_for(self.rng, &info, returned.as_ref(), v) })];
             if self.rng.chance(1, 4) {
                 let other = (r + 1) % self.m.res.len();
                 let oi = self.m.res[other].clone();
-                cons.push((other, cons_for(self.rng, &oi, None)));
+                cons.push((other, { let v = self.violate(); cons_for(self.rng, &oi, None, v) }));
             }
             let only = self.rng.bool();
             if self.rng.chance(1, 8) {
@@ -332,18 +363,19 @@ impl<'a> Gen<'a> {
         };
         let ins = match self.rng.below(10) {
             0 | 1 => Ins::TakeAll { res: r },
-            _ if !info.fungible && self.rng.chance(4, 5) => Ins::TakeNf { res: r, ids: pick_ids(self.rng, self.p, &ids, &locked) },
+            _ if !info.fungible && self.rng.chance(4, 5) => Ins::TakeNf { res: r, ids: pick_ids(self.rng, &self.p, &ids, &locked) },
             _ => {
-                let mut amt = pick_amount(self.rng, self.p, &info, &total, &free);
+                let mut amt = pick_amount(self.rng, &self.p, &info, &total, &free);
                 if self.rng.chance(1, 5) {
                     amt = to_dec(&total); // the bucket-move path
                 }
                 if !info.fungible {
+                    let wild = self.wild();
                     amt = match self.rng.below(6) {
-                        0 => to_dec(&total),
+                        0 | 4 => to_dec(&total),
                         1 => Decimal::ZERO,
-                        2 => to_dec(&(&total + one())),
-                        3 => to_dec(&(one() / 4u32)),
+                        2 if wild => to_dec(&(&total + one())),
+                        3 if wild => to_dec(&(one() / 4u32)),
                         _ => amt,
                     };
                 }
@@ -357,7 +389,8 @@ impl<'a> Gen<'a> {
         let Some(b) = self.some_bucket() else { return self.op_take() };
         let ins = match self.rng.below(10) {
             0..=3 => Ins::Return { bucket: b },
-            4 => Ins::Burn { bucket: b },
+            4 if self.bucket_burnable(b) || self.rng.chance(1, 5) => Ins::Burn { bucket: b },
+            4 => Ins::Return { bucket: b },
             5..=7 => {
                 let a = self.acct();
                 let kind = self.dep_kind();
@@ -398,13 +431,19 @@ impl<'a> Gen<'a> {
         let choice = self.rng.below(if self.v2 { 10 } else { 5 });
         let ins = match choice {
             0 | 1 => {
-                let a = match self.rng.below(6) {
-                    0 => amount.clone(),
-                    1 => &amount + &u,
-                    2 => &amount + 1u32,
-                    3 => (&amount - &u).max(BigInt::zero()),
-                    4 => BigInt::zero(),
-                    _ => &amount / 2u32,
+                let a = if self.violate() {
+                    match self.rng.below(3) {
+                        0 => &amount + &u,
+                        1 => &amount + 1u32,
+                        _ => &amount * 2u32 + &u,
+                    }
+                } else {
+                    match self.rng.below(5) {
+                        0 | 1 => amount.clone(),
+                        2 => (&amount - &u).max(BigInt::zero()),
+                        3 => BigInt::zero(),
+                        _ => &amount / 2u32,
+                    }
                 };
                 Ins::AssertContains { res: r, amount: to_dec(&a) }
             }
@@ -418,7 +457,7 @@ impl<'a> Gen<'a> {
                         _ => BTreeSet::new(),
                     };
                     let mut pick: Vec<u64> = ids.iter().cloned().filter(|_| self.rng.bool()).collect();
-                    if self.rng.chance(1, 4) {
+                    if self.violate() {
                         pick.push(9_200_000);
                     }
                     Ins::AssertContainsNf { res: r, ids: pick }
@@ -434,7 +473,7 @@ impl<'a> Gen<'a> {
                     if include {
                         let ii = self.m.res[rr].clone();
                         let hh = self.m.worktop_holding(rr).cloned();
-                        cons.push((rr, cons_for(self.rng, &ii, hh.as_ref())));
+                        cons.push((rr, { let v = self.violate(); cons_for(self.rng, &ii, hh.as_ref(), v) }));
                     }
                 }
                 if self.rng.chance(1, 10) {
@@ -452,7 +491,7 @@ impl<'a> Gen<'a> {
                         Some(c) => (self.m.res[self.m.containers[*c].res].clone(), Some(self.m.containers[*c].hold.clone())),
                         None => (info.clone(), None),
                     };
-                    Ins::AssertBucket { bucket: b, cons: cons_for(self.rng, &ii, hh.as_ref()) }
+                    Ins::AssertBucket { bucket: b, cons: { let v = self.violate(); cons_for(self.rng, &ii, hh.as_ref(), v) } }
                 }
                 None => Ins::AssertContainsAny { res: r },
             },
@@ -470,11 +509,12 @@ impl<'a> Gen<'a> {
                 let (total, _free, ids, _locked) = self.container_amounts(v);
                 if info.fungible {
                     // proofs may overlap: aim relative to the total, not to the free part
+                    let wild = self.wild();
                     let amt = match self.rng.below(8) {
                         0 => to_dec(&total),
-                        1 => to_dec(&(&total + info.unit())),
+                        1 if wild => to_dec(&(&total + info.unit())),
                         2 => to_dec(&info.unit()),
-                        3 => pick_amount(self.rng, self.p, &info, &total, &total),
+                        3 => pick_amount(self.rng, &self.p, &info, &total, &total),
                         _ => {
                             let units = (&total / info.unit()).to_string().parse::<u64>().unwrap_or(0).max(1);
                             to_dec(&(BigInt::from(self.rng.range(1, units)) * info.unit()))
@@ -482,7 +522,7 @@ impl<'a> Gen<'a> {
                     };
                     self.push(Ins::AcctProofAmount { acct: a, res: r, amount: amt });
                 } else {
-                    let pick = pick_ids(self.rng, self.p, &ids, &BTreeSet::new());
+                    let pick = pick_ids(self.rng, &self.p, &ids, &BTreeSet::new());
                     self.push(Ins::AcctProofNf { acct: a, res: r, ids: pick });
                 }
             }
@@ -497,12 +537,13 @@ impl<'a> Gen<'a> {
                 };
                 let ins = match self.rng.below(4) {
                     0 => Ins::ProofFromBucketAll { bucket: b },
-                    _ if !info.fungible => Ins::ProofFromBucketNf { bucket: b, ids: pick_ids(self.rng, self.p, &ids, &BTreeSet::new()) },
+                    _ if !info.fungible => Ins::ProofFromBucketNf { bucket: b, ids: pick_ids(self.rng, &self.p, &ids, &BTreeSet::new()) },
                     _ => {
+                        let wild = self.wild();
                         let amt = match self.rng.below(6) {
                             0 => to_dec(&total),
-                            1 => to_dec(&(&total + info.unit())),
-                            2 => pick_amount(self.rng, self.p, &info, &total, &total),
+                            1 if wild => to_dec(&(&total + info.unit())),
+                            2 => pick_amount(self.rng, &self.p, &info, &total, &total),
                             _ => {
                                 let units = (&total / info.unit()).to_string().parse::<u64>().unwrap_or(0).max(1);
                                 to_dec(&(BigInt::from(self.rng.range(1, units)) * info.unit()))
@@ -540,20 +581,230 @@ impl<'a> Gen<'a> {
             _ => {
                 // composed proof from the auth zone
                 let rs: Vec<usize> = self.m.auth_zone.iter().map(|u| self.m.proof_tab[*u].res).collect();
+                if rs.is_empty() && !self.wild() {
+                    return self.op_vault_lock_scenario();
+                }
                 let r = if rs.is_empty() { self.res() } else { *self.rng.pick(&rs) };
                 let info = self.m.res[r].clone();
                 let ins = match self.rng.below(3) {
                     0 => Ins::ProofFromAzAll { res: r },
                     _ if info.fungible => {
                         let max: BigInt = self.m.auth_zone.iter().filter(|u| self.m.proof_tab[**u].res == r).flat_map(|u| self.m.proof_tab[*u].evidence.iter()).filter_map(|(_, l)| if let Lock::F(a) = l { Some(a.clone()) } else { None }).max().unwrap_or_else(BigInt::zero);
-                        Ins::ProofFromAzAmount { res: r, amount: pick_amount(self.rng, self.p, &info, &max, &max) }
+                        Ins::ProofFromAzAmount { res: r, amount: pick_amount(self.rng, &self.p, &info, &max, &max) }
                     }
                     _ => {
                         let ids: BTreeSet<u64> = self.m.auth_zone.iter().filter(|u| self.m.proof_tab[**u].res == r).flat_map(|u| self.m.proof_tab[*u].evidence.iter()).filter_map(|(_, l)| if let Lock::N(s) = l { Some(s.clone()) } else { None }).flatten().collect();
-                        Ins::ProofFromAzNf { res: r, ids: pick_ids(self.rng, self.p, &ids, &BTreeSet::new()) }
+                        Ins::ProofFromAzNf { res: r, ids: pick_ids(self.rng, &self.p, &ids, &BTreeSet::new()) }
                     }
                 };
                 self.push(ins);
+            }
+        }
+    }
+
+    /// amount relative to the withdrawable part of a (possibly locked) container
+    fn boundary_amount(&mut self, info: &ResInfo, total: &BigInt, free: &BigInt) -> (Decimal, &'static str) {
+        let u = info.unit();
+        let wild = self.p.hostile_amount_pct > 0;
+        match self.rng.below(if wild { 10 } else { 4 }) {
+            0 | 1 => (to_dec(free), "exactly-withdrawable"),
+            2 => (to_dec(&(free - &u).max(BigInt::zero())), "one-unit-below"),
+            3 => (to_dec(&(free / 2u32 / &u * &u)), "half"),
+            4 | 5 => (to_dec(&(free + &u)), "one-unit-above"),
+            6 => (to_dec(&(free + 1u32)), "one-atto-above"),
+            7 => (to_dec(total), "whole-content"),
+            8 => (to_dec(&(free - &u / 2u32)), "divisibility-violation"),
+            _ => (to_dec(&(total - free)), "exactly-the-locked-part"),
+        }
+    }
+
+    /// proofs on an account vault, then a withdrawal / burn / recall aimed at the lock boundary,
+    /// optionally releasing the proofs first
+    fn op_vault_lock_scenario(&mut self) {
+        let (a, r) = (self.acct(), self.res());
+        let v = self.m.vaults[&(a, r)];
+        let info = self.m.res[r].clone();
+        let n_proofs = self.rng.range(1, 3);
+        for _ in 0..n_proofs {
+            if self.stopped {
+                return;
+            }
+            let (total, _f, ids, _l) = self.container_amounts(v);
+            if info.fungible {
+                let units = (&total / info.unit()).to_string().parse::<u64>().unwrap_or(0);
+                if units == 0 {
+                    return;
+                }
+                let amt = match self.rng.below(5) {
+                    0 => total.clone(),
+                    1 => info.unit(),
+                    _ => BigInt::from(self.rng.range(1, units)) * info.unit(),
+                };
+                self.push(Ins::AcctProofAmount { acct: a, res: r, amount: to_dec(&amt) });
+            } else {
+                let mut pick: Vec<u64> = ids.iter().cloned().filter(|_| self.rng.chance(1, 3)).collect();
+                if pick.is_empty() {
+                    match ids.iter().next() {
+                        Some(x) => pick.push(*x),
+                        None => return,
+                    }
+                }
+                self.push(Ins::AcctProofNf { acct: a, res: r, ids: pick });
+            }
+            // sometimes shuffle the proof through named form: pop, clone, drop one of the two
+            if !self.stopped && self.rng.chance(1, 3) {
+                self.push(Ins::PopAz);
+                if let Some((&p, _)) = self.m.proofs.iter().next_back() {
+                    match self.rng.below(4) {
+                        0 => {
+                            self.push(Ins::CloneProof { proof: p });
+                            self.push(Ins::DropProof { proof: p });
+                        }
+                        1 => self.push(Ins::PushAz { proof: p }),
+                        2 => self.push(Ins::CloneProof { proof: p }),
+                        _ => {}
+                    }
+                }
+            }
+        }
+        if self.stopped {
+            return;
+        }
+        let release = self.rng.chance(1, 3);
+        if release {
+            // all proofs gone: the full amount must be withdrawable again
+            if !self.m.proofs.is_empty() {
+                self.push(Ins::DropNamedProofs);
+            }
+            self.push(Ins::DropAzRegular);
+        }
+        let (total, free, ids, locked) = self.container_amounts(v);
+        let ins = if info.fungible {
+            let (amt, _) = if release && self.rng.chance(2, 3) { (to_dec(&total), "whole-after-release") } else { self.boundary_amount(&info, &total, &free) };
+            match self.rng.below(5) {
+                0 if info.burnable => Ins::AcctBurn { acct: a, res: r, amount: if big_of(amt) > BigInt::from(40u32) * one() && self.rng.chance(3, 4) { to_dec(&(info.unit() * 2u32)) } else { amt } },
+                1 if info.recallable => Ins::Recall { acct: a, res: r, amount: amt },
+                _ => Ins::Withdraw { acct: a, res: r, amount: amt },
+            }
+        } else {
+            let free_ids: Vec<u64> = ids.difference(&locked).cloned().collect();
+            let wild = self.p.hostile_amount_pct > 0;
+            let pick: Vec<u64> = match self.rng.below(if wild { 6 } else { 3 }) {
+                0 => free_ids.clone(),
+                1 | 2 => free_ids.iter().take(2).cloned().collect(),
+                3 => locked.iter().take(1).cloned().collect(),
+                4 => ids.iter().cloned().collect(),
+                _ => {
+                    let mut x: Vec<u64> = free_ids.iter().take(1).cloned().collect();
+                    x.extend(locked.iter().take(1));
+                    x
+                }
+            };
+            match self.rng.below(5) {
+                0 => Ins::RecallNf { acct: a, res: r, ids: pick },
+                1 if pick.len() <= 1 => Ins::AcctBurnNf { acct: a, res: r, ids: pick },
+                _ => Ins::WithdrawNf { acct: a, res: r, ids: pick },
+            }
+        };
+        self.push(ins);
+    }
+
+    /// a bucket with live proofs: take / return / burn / deposit around the lock boundary
+    fn op_bucket_lock_scenario(&mut self) {
+        // get a bucket
+        if self.m.buckets.is_empty() {
+            if self.m.worktop.is_empty() {
+                self.op_source();
+            }
+            if self.stopped {
+                return;
+            }
+            let on_wt: Vec<usize> = self.m.worktop.keys().cloned().collect();
+            if on_wt.is_empty() {
+                return;
+            }
+            let r = *self.rng.pick(&on_wt);
+            self.push(Ins::TakeAll { res: r });
+        }
+        if self.stopped {
+            return;
+        }
+        let ks: Vec<u32> = self.m.buckets.keys().cloned().collect();
+        let b = *self.rng.pick(&ks);
+        let c = self.m.buckets[&b];
+        let r = self.m.containers[c].res;
+        let info = self.m.res[r].clone();
+        let n_proofs = self.rng.range(1, 3);
+        for _ in 0..n_proofs {
+            if self.stopped {
+                return;
+            }
+            let (total, _f, ids, _l) = self.container_amounts(c);
+            if total.is_zero() {
+                return;
+            }
+            let ins = if info.fungible {
+                let units = (&total / info.unit()).to_string().parse::<u64>().unwrap_or(1).max(1);
+                match self.rng.below(4) {
+                    0 => Ins::ProofFromBucketAll { bucket: b },
+                    _ => Ins::ProofFromBucketAmount { bucket: b, amount: to_dec(&(BigInt::from(self.rng.range(1, units)) * info.unit())) },
+                }
+            } else {
+                let mut pick: Vec<u64> = ids.iter().cloned().filter(|_| self.rng.chance(1, 3)).collect();
+                if pick.is_empty() {
+                    pick.extend(ids.iter().take(1));
+                }
+                if self.rng.chance(1, 4) {
+                    Ins::ProofFromBucketAll { bucket: b }
+                } else {
+                    Ins::ProofFromBucketNf { bucket: b, ids: pick }
+                }
+            };
+            self.push(ins);
+        }
+        if self.stopped {
+            return;
+        }
+        let release = self.rng.chance(1, 3);
+        if release && !self.m.proofs.is_empty() {
+            self.push(Ins::DropNamedProofs);
+        }
+        match self.rng.below(8) {
+            0 if info.burnable => self.push(Ins::Burn { bucket: b }),
+            0 | 1 | 2 => {
+                let a = self.acct();
+                let kind = self.dep_kind();
+                self.push(Ins::Deposit { acct: a, bucket: b, kind });
+            }
+            _ => {
+                // put the (locked) bucket on the worktop and take from it there
+                self.push(Ins::Return { bucket: b });
+                if self.stopped {
+                    return;
+                }
+                let Some(&wc) = self.m.worktop.get(&r) else { return };
+                let (total, free, ids, locked) = self.container_amounts(wc);
+                let ins = if info.fungible {
+                    let (amt, _) = self.boundary_amount(&info, &total, &free);
+                    Ins::Take { res: r, amount: amt }
+                } else {
+                    let free_ids: Vec<u64> = ids.difference(&locked).cloned().collect();
+                    let wild = self.p.hostile_amount_pct > 0;
+                    match self.rng.below(if wild { 5 } else { 3 }) {
+                        0 => Ins::TakeNf { res: r, ids: free_ids },
+                        1 => Ins::TakeNf { res: r, ids: free_ids.into_iter().take(1).collect() },
+                        2 => Ins::TakeAll { res: r },
+                        3 => Ins::TakeNf { res: r, ids: locked.iter().take(1).cloned().collect() },
+                        _ => Ins::TakeNf { res: r, ids: ids.iter().cloned().collect() },
+                    }
+                };
+                self.push(ins);
+                if !self.stopped && self.rng.chance(1, 4) {
+                    // hand the rest (still locked) to an account: must be refused while proofs live
+                    let a = self.acct();
+                    let kind = self.dep_kind();
+                    self.push(Ins::DepositWorktop { acct: a, kind });
+                }
             }
         }
     }
@@ -574,16 +825,19 @@ impl<'a> Gen<'a> {
         let (a, r) = (self.acct(), self.res());
         let v = self.m.vaults[&(a, r)];
         let info = self.m.res[r].clone();
+        if !info.burnable {
+            return self.op_source();
+        }
         let (total, free, ids, locked) = self.container_amounts(v);
         if info.fungible {
             // keep burns small unless aiming at the boundary
-            let mut amt = pick_amount(self.rng, self.p, &info, &total, &free);
+            let mut amt = pick_amount(self.rng, &self.p, &info, &total, &free);
             if big_of(amt) > BigInt::from(50u32) * one() && big_of(amt) < free {
                 amt = to_dec(&(info.unit() * 3u32));
             }
             self.push(Ins::AcctBurn { acct: a, res: r, amount: amt });
         } else {
-            let mut pick = pick_ids(self.rng, self.p, &ids, &locked);
+            let mut pick = pick_ids(self.rng, &self.p, &ids, &locked);
             if pick.len() > 1 && pick.iter().all(|i| ids.contains(i) && !locked.contains(i)) {
                 pick.truncate(1);
             }
@@ -621,10 +875,28 @@ impl<'a> Gen<'a> {
 pub fn generate(rng: &mut Rng, p: &Profile, res: &[ResInfo], holdings: &BTreeMap<(usize, usize), Holding>, n_acct: usize) -> Case {
     let v2 = rng.below(100) < p.v2_pct;
     let m = Model::new(res, holdings);
-    let mut g = Gen { rng, p, m, v2, out: vec![], stopped: false, n_acct };
+    // mood of the case: clean (everything well-formed), mild, wild
+    let mut p = p.clone();
+    let violate_pct;
+    match rng.below(10) {
+        0..=3 => {
+            p.bad_id_pct = 0;
+            p.hostile_amount_pct = 0;
+            p.tidy_pct = 100;
+            violate_pct = 0;
+        }
+        4..=7 => {
+            p.bad_id_pct /= 2;
+            p.hostile_amount_pct /= 3;
+            violate_pct = 6;
+        }
+        _ => violate_pct = 30,
+    }
+    let mut g = Gen { rng, p: p.clone(), m, v2, out: vec![], stopped: false, n_acct, violate_pct };
     let fee = if g.rng.bool() { FeeSource::Faucet } else { FeeSource::FeeAccount };
     g.push(Ins::LockFee(fee));
     let len = g.rng.range(2, p.max_len as u64) as usize;
+    let p = &p;
     let mut after_stop = 0;
     while g.out.len() < len {
         if g.stopped {
@@ -640,8 +912,8 @@ pub fn generate(rng: &mut Rng, p: &Profile, res: &[ResInfo], holdings: &BTreeMap
         let w_take = if have_wt { p.w_flow * 2 } else { p.w_flow / 4 };
         let w_bsink = if have_buckets { p.w_flow * 2 } else { p.w_flow / 8 };
         let w_wsink = if have_wt { p.w_flow / 2 } else { p.w_flow / 8 };
-        let w_direct = p.w_flow / 4 + if p.w_proof > 6 { 3 } else { 0 };
-        let ws = [w_source, w_take, w_bsink, w_wsink, p.w_assert, p.w_proof, p.w_drop_auth, w_direct];
+        let w_direct = if p.direct_vault_ops { p.w_flow / 4 } else { 0 };
+        let ws = [w_source, w_take, w_bsink, w_wsink, p.w_assert, p.w_proof, p.w_drop_auth, w_direct, p.w_lock_scenario, p.w_lock_scenario];
         let total: u64 = ws.iter().sum();
         let mut x = g.rng.below(total.max(1));
         let mut k = 0;
@@ -657,7 +929,9 @@ pub fn generate(rng: &mut Rng, p: &Profile, res: &[ResInfo], holdings: &BTreeMap
             4 => g.op_assert(),
             5 => g.op_proof(),
             6 => g.op_drop_auth(),
-            _ => g.op_account_direct(),
+            7 => g.op_account_direct(),
+            8 => g.op_vault_lock_scenario(),
+            _ => g.op_bucket_lock_scenario(),
         }
     }
     if !g.stopped && g.rng.below(100) < p.tidy_pct {
